@@ -23,8 +23,22 @@ fn setup_input(dir: &Path, kind: &str, valid_doc: &[u8], variant: usize) -> Path
     let p = dir.join("in.xml");
     match kind {
         "valid" => std::fs::write(&p, valid_doc).unwrap(),
-        "malformed" => std::fs::write(&p, [&b"<a><b></a>"[..], b"<a x=\"1\" x=\"2\"/>", b"<a><!-- open", b"<a></a></a>"][variant % 4]).unwrap(),
-        "noelement" => std::fs::write(&p, [&b"<?xml version=\"1.0\"?><!-- nothing here -->"[..], b"", b"  \n\t\n", b"only text"][variant % 4]).unwrap(),
+        "malformed" => {
+            // the plain ones, and the same faults with multi-byte characters packed around the place of the error
+            let dense = |k: usize| -> Vec<u8> {
+                let fill: String = ["\u{e9}", "\u{20ac}", "\u{1F600}", "a\u{e9}"][k % 4].repeat(7 + k % 13);
+                format!("<r><n>{0}</n><p>{0}</p><x>{0}</y><q>{0}</q></r>", fill).into_bytes()
+            };
+            match variant % 8 {
+                0 => std::fs::write(&p, b"<a><b></a>").unwrap(),
+                1 => std::fs::write(&p, b"<a x=\"1\" x=\"2\"/>").unwrap(),
+                2 => std::fs::write(&p, b"<a><!-- open").unwrap(),
+                3 => std::fs::write(&p, b"<a></a></a>").unwrap(),
+                k => std::fs::write(&p, dense(variant / 8 * 4 + k)).unwrap(),
+            }
+        }
+        "noelement" => std::fs::write(&p, [&b"<?xml version=\"1.0\"?><!-- nothing here -->"[..], b"", b"  \n\t\n", b"only text",
+                                            "\u{442}\u{43e}\u{43b}\u{44c}\u{43a}\u{43e} \u{442}\u{435}\u{43a}\u{441}\u{442} \u{20ac}\u{1F600}".as_bytes()][variant % 5]).unwrap(),
         "nonutf8" => std::fs::write(&p, [&b"<a>\xff\xfe</a>"[..], b"\xff\xfe<\x00a\x00/\x00>\x00", b"<a b=\"\xc3\x28\"/>"][variant % 3]).unwrap(),
         "directory" => std::fs::create_dir_all(&p).unwrap(),
         _ => {} // missing
